@@ -143,6 +143,9 @@ func callRT(fr *frame, fn *ssa.Function, args []value) (value, bool) {
 			}
 		}
 		return nil, true
+	case "LocksetRace":
+		m.raceOn = args[0].(bool)
+		return nil, true
 	case "SchedNondet":
 		m.schedNondet = args[0].(bool)
 		m.preemptBudget = int(asInt64(args[1]))
